@@ -225,6 +225,12 @@ def svh_corpus(tier):
                     if tier == "thorough" and r == 4 and (i % 9):
                         continue
                     yield ("svh", (U, es, ws, mo, mp))
+    # two (three) disjoint hyperedges with equal heavy weights: equal p-values between bonf and 2*bonf (3*bonf), where a
+    # step-up threshold validates all of them and a step-down one validates none
+    for w0 in range(4, 26):
+        yield ("svh", ((2, 5, 7, 11), ((2, 5), (7, 11)), (w0, w0), 3, False))
+        yield ("svh", ((2, 5, 7, 11, 13, 17), ((2, 5), (7, 11), (13, 17)), (w0, w0, w0), 3, False))
+        yield ("svh", ((2, 5, 7, 11, 13, 17), ((2, 5, 7), (11, 13, 17)), (w0, w0), 3, False))
     # heavier weights: validated sets become non-trivial
     for es in itertools.combinations(cands[:6], 3):
         for ws in ((9, 1, 1), (1, 12, 1), (6, 6, 1), (20, 1, 2)):
